@@ -330,9 +330,31 @@ pub fn c19(tier: &str, seed: u64, known: &[String]) -> Report {
             let r = std::panic::catch_unwind(|| { let _ = Rgb::from_vec(w.clone()); let _ = Ycbcr::from_vec(w.clone()); });
             rep.check("C19.vec.bytes.total", r.is_ok(), || format!("from_vec of {} bytes panicked", len));
         }
-        let a = [rng.range(-2.0, 2.0), rng.range(-2.0, 2.0), rng.range(-2.0, 2.0)];
+        // scale: any magnitude (already-scaled values too), and applied twice
+        let m = [2.0, 300.0, 1e6][i % 3];
+        let a = [rng.range(-m, m), rng.range(-m, m), rng.range(-m, m)];
         let mut xs = Xyz { x: a[0], y: a[1], z: a[2] }; xs.scale();
         rep.check("C19.scale", xs.x == a[0] * 100.0 && xs.y == a[1] * 100.0 && xs.z == a[2] * 100.0, || format!("scale {:?} -> ({},{},{})", a, xs.x, xs.y, xs.z));
+        let once = [xs.x, xs.y, xs.z]; xs.scale();
+        rep.check("C19.scale", xs.x == once[0] * 100.0 && xs.y == once[1] * 100.0 && xs.z == once[2] * 100.0, || format!("scale twice {:?} -> ({},{},{})", a, xs.x, xs.y, xs.z));
+        // helpers on out-of-gamut / arbitrary sources (the XYZ in the middle may be negative or large)
+        for k in [None, Some(Kind::D65), Some(Kind::Adobe)] {
+            let lab = Lab { l: rng.range(0.0, 100.0), a: rng.range(-128.0, 128.0), b: rng.range(-128.0, 128.0) };
+            helper_xr!(rep, lab, k, Hsl, Cymk, Rgb);
+            let luv = Luv { l: rng.range(1.0, 100.0), u: rng.range(-130.0, 180.0), v: rng.range(-130.0, 110.0) };
+            helper_xr!(rep, luv, k, Hsv, Rgb);
+            let sr = Srgb { r: rng.range(-0.3, 1.3), g: rng.range(-0.3, 1.3), b: rng.range(-0.3, 1.3) };
+            helper_xr!(rep, sr, k, Hwb, Yuv);
+        }
+        {
+            let lab = Lab { l: rng.range(0.0, 100.0), a: rng.range(-128.0, 128.0), b: rng.range(-128.0, 128.0) };
+            { let got: Luv = from_xyz_to_xyz_subtype(lab); let want = Luv::from(Xyz::from(lab)); rep.check("C19.helper.xyz_to_xyz_subtype", same!(got, want), || format!("Lab({},{},{}) -> Luv: {:?} vs {:?}", lab.l, lab.a, lab.b, got.as_vec(), want.as_vec())); }
+            { let got: Rec2020 = from_xyz_to_xyz_subtype(lab); let want = Rec2020::from(Xyz::from(lab)); rep.check("C19.helper.xyz_to_xyz_subtype", same!(got, want), || format!("Lab({},{},{}) -> Rec2020: {:?} vs {:?}", lab.l, lab.a, lab.b, got.as_vec(), want.as_vec())); }
+            let sr = Srgb { r: rng.range(-0.3, 1.3), g: rng.range(-0.3, 1.3), b: rng.range(-0.3, 1.3) };
+            { let got: Xyy = from_xyz_to_xyz_subtype(sr); let want = Xyy::from(Xyz::from(sr)); rep.check("C19.helper.xyz_to_xyz_subtype", same!(got, want), || format!("Srgb({},{},{}) -> Xyy: {:?} vs {:?}", sr.r, sr.g, sr.b, got.as_vec(), want.as_vec())); }
+            let xz = Xyz { x: rng.range(-0.5, 1.5), y: rng.range(-0.5, 1.5), z: rng.range(-0.5, 1.5) };
+            { let got: Lab = from_xyz_to_xyz_subtype(xz); let want = Lab::from(xz); rep.check("C19.helper.xyz_to_xyz_subtype", same!(got, want), || format!("Xyz({},{},{}) -> Lab: {:?} vs {:?}", xz.x, xz.y, xz.z, got.as_vec(), want.as_vec())); }
+        }
     }
     rep
 }
